@@ -325,6 +325,13 @@ func (s *Svc) BoomAfterCancel(ctx context.Context, tok string, kind int) (string
 	return Reply(tok), nil
 }
 
+// BoomPtr dereferences its pointer argument; called with JSON null it panics with a nil dereference.
+func (s *Svc) BoomPtr(ctx context.Context, tok string, p *Custom) (string, error) {
+	r, _ := s.enter(ctx, "BoomPtr", tok)
+	defer s.exit(ctx, r)
+	return fmt.Sprintf("%s:%d", Reply(tok), p.A), nil
+}
+
 func (s *Svc) BoomNote(ctx context.Context, tok string, kind int) error {
 	r, _ := s.enter(ctx, "BoomNote", tok)
 	defer s.exit(ctx, r)
@@ -662,7 +669,8 @@ type Client struct {
 	NoteR           func(ctx context.Context, tok string) error `notify:"true" retry:"true" rpc_method:"S.Note"`
 	Boom            func(ctx context.Context, tok string, kind int) (string, error)
 	BoomR           func(ctx context.Context, tok string, kind int) (string, error) `retry:"true" rpc_method:"S.Boom"`
-	BoomNote        func(ctx context.Context, tok string, kind int) error           `notify:"true"`
+	BoomPtr         func(ctx context.Context, tok string, p *Custom) (string, error)
+	BoomNote        func(ctx context.Context, tok string, kind int) error `notify:"true"`
 	BoomAfterCancel func(ctx context.Context, tok string, kind int) (string, error)
 	BoomBarrier     func(ctx context.Context, tok string, kind int, group string, n int) (string, error)
 	BoomSub         func(ctx context.Context, tok string, kind int) (<-chan Item, error)
